@@ -109,7 +109,9 @@ def driver_ops(zn, rnd):
         ops.append(("snippet_int", [], (lambda t, n: (lambda z: pb.snippet(z, t, n)))(t, nn), False))
     tf = ti + rnd.choice([0.25, 0.5, 0.3, 0.75])
     ops.append(("snippet", [], (lambda t, n: (lambda z: pb.snippet(z, t, n)))(tf, nn), True))
-    sh = rnd.choice([1.5, -2.25, 3.0, -0.4, 7.75])
+    # shifts on and off the lattices where an implementation might branch: whole numbers (as int and
+    # as float), zero, negative, fractional
+    sh = rnd.choice([1.5, -2.25, 3.0, -0.4, 7.75, 2, -5.0, 0, -1, 4.0, 0.0, 1])
     ops.append(("time_shift", [], (lambda s, c: (lambda z: pb.time_shift(z, s, crop=c)))(sh, rnd.random() < 0.5), True))
     if zn.ndim >= 2:
         vec = np.array([rnd.choice([1.5, -2.25, 0.5, 0.0, 3.0]) for _ in range(zn.shape[1])])
@@ -405,6 +407,10 @@ def run_transform_calls(n, rnd, out):
             s0, t0 = ds.sentinel_count(), ds.task_count()
             try:
                 rn = dr.call_mb_kw(zn, k, v)
+            except Exception:  # noqa   (e.g. a negative offset on unsigned samples): not defined for this input
+                out.note("driver_np_raises")
+                break
+            try:
                 rd = dr.call_mb_kw(zd, k, v, probs)
             except Exception as e:  # noqa
                 out.viol.append(("raises:transform-calls", "%r | %s" % (e, what)))
@@ -414,7 +420,10 @@ def run_transform_calls(n, rnd, out):
                 out.viol.append(("argument-modified:%s" % name_, "%s came back as %r (was %r) | %s" % (name_, a_, b_, what)))
             got = rd.compute(scheduler="synchronous") if isinstance(rd.data, da.Array) else rd
             for c, m, amb in dr.compare_signals(got, rn, False, what):
-                out.viol.append(("%s:transform-calls" % c, m))
+                if amb:
+                    out.ambiguous += 1
+                else:
+                    out.viol.append(("%s:transform-calls" % c, m))
         out.note("driver_op:transform-calls")
 
 
@@ -455,25 +464,28 @@ def run_histories(n, rnd, out):
                                                s0, ds.sentinel_count(), t0, ds.task_count()))
                     got = look.compute(scheduler="synchronous") if isinstance(look.data, da.Array) else look
                     for c, m, amb in dr.compare_signals(got, zn, False, what):
-                        out.viol.append(("%s:history" % c, m))
+                        if amb:
+                            out.ambiguous += 1
+                        else:
+                            out.viol.append(("%s:history" % c, m))
                     if act == "compute" and isinstance(look.data, da.Array):
                         out.viol.append(("peek-not-computed:history", "compute() returned a Dask-backed signal | " + what))
                     continue
-                if act == "iadd-signal":
-                    zn += step_n
-                    zd += step_n
-                elif act == "iadd-dask-signal":
-                    zn += step_n
-                    zd += step_d
-                elif act == "imul-scalar":
-                    zn *= 2
-                    zd *= 2
-                elif act == "add-out":
-                    np.add(zn, step_n, out=zn)
-                    np.add(zd, step_n, out=zd)
-                else:
-                    np.multiply(zn, step_arr, out=zn)
-                    np.multiply(zd, step_arr, out=zd)
+                def change(z, step):
+                    if act in ("iadd-signal", "iadd-dask-signal"):
+                        z += step
+                    elif act == "imul-scalar":
+                        z *= 2
+                    elif act == "add-out":
+                        np.add(z, step, out=z)
+                    else:
+                        np.multiply(z, step_arr, out=z)
+                try:
+                    change(zn, step_n)
+                except Exception:  # noqa   the change is not defined for these samples whatever the container
+                    out.note("driver_np_raises")
+                    break
+                change(zd, step_d if act == "iadd-dask-signal" else step_n)
             except Exception as e:  # noqa
                 out.viol.append(("raises:history", "%r | %s" % (e, what)))
                 break
@@ -519,7 +531,10 @@ def run_concat(n, rnd, out):
         out.note("driver_op:concat-pieces")
         got = rd.compute(scheduler="threads")
         for c, m, amb in dr.compare_signals(got, rn, False, "concatenate(%d pieces, axis=%d) of %s" % (len(pn), ax, list(zn.shape))):
-            out.viol.append(("%s:concatenate" % c, m))
+            if amb:
+                out.ambiguous += 1
+            else:
+                out.viol.append(("%s:concatenate" % c, m))
 
 
 # ------------------------------------------------------------------ readers
@@ -560,7 +575,10 @@ def twin_readers(rnd, out):
         cat = pb.concatenate([a, b], axis="freq").compute(scheduler="threads")
         ref = pb.concatenate([ea, eb], axis="freq")
         for c, m, amb in dr.compare_signals(cat, ref, False, "frequency-concatenate of dask reads from twin readers"):
-            out.viol.append(("%s:reader-twins" % c, m))
+            if amb:
+                out.ambiguous += 1
+            else:
+                out.viol.append(("%s:reader-twins" % c, m))
         out.note("driver_op:reader-twins")
     # the sample files with and without lower_sideband: same file, same geometry, different samples
     return
@@ -598,9 +616,23 @@ def concurrent_reads(r, name, rnd, out, reps, nread=6, maxn=400):
     out.note("driver_op:concurrent-reads-" + name)
 
 
+def _span(rnd, length, j):
+    """(offset, n) of the j-th read of a population: ordinary spans and the boundary ones -
+    nothing (n = 0, anywhere up to the very end), one sample, everything up to the end"""
+    k = j % 4
+    if k == 1:
+        return rnd.choice([0, length, rnd.randint(0, length)]), 0
+    if k == 2:
+        return rnd.randint(0, length - 1), 1
+    if k == 3:
+        off = rnd.randint(0, length // 2)
+        return off, length - off
+    return rnd.randint(0, length // 2), rnd.randint(2, length // 2)
+
+
 def _reader_event(out, pre_like, z, n0, n1):
     pre = dict(dr.summary(z))
-    pre.update(back="dask", ch=pre["ch"])
+    pre.update(back="dask", ch=pre["ch"] or [[n] for n in pre["sh"]])
     out.events.append(dr.event("reader", "transform", [], False, pre, dr.summary(z), n0, n1, n0, n1))
 
 
@@ -613,8 +645,7 @@ def run_readers(rnd, out, repo, nreads=6):
         r = CountingReader(shape, dtype, signal_type=sigtype, sample_rate=1 * u.MHz,
                            start_time=dr.EPOCH, **kw)
         for j in range(nreads):
-            off = rnd.randint(0, shape[0] // 2)
-            n = rnd.randint(1, shape[0] // 2)
+            off, n = _span(rnd, shape[0], j)
             chunks = rnd.choice([None, tuple(composition(k, rnd, 3) for k in (n,) + shape[1:]), (-1,) + (1,) * (len(shape) - 1),
                                  (composition(n, rnd, 4),) + (-1,) * (len(shape) - 1)])
             kwr = {} if chunks is None else {"chunks": chunks}
@@ -632,7 +663,10 @@ def run_readers(rnd, out, repo, nreads=6):
                 continue
             got = zd.compute(scheduler=rnd.choice(["synchronous", "threads"]))
             for c, m, amb in dr.compare_signals(got, zn, False, "CountingReader.read(%d, %d, use_dask, chunks=%r)" % (off, n, chunks)):
-                out.viol.append(("%s:reader" % c, m))
+                if amb:
+                    out.ambiguous += 1
+                else:
+                    out.viol.append(("%s:reader" % c, m))
     twin_readers(rnd, out)
     # 1b. a reader whose _read_array depends on the whole span read (not block-local), every kind of chunks
     for sigtype, dtype, shape, kw in [
@@ -641,10 +675,10 @@ def run_readers(rnd, out, repo, nreads=6):
             (pb.BasebandSignal, np.complex64, (200, 2), {"center_freq": 1.4 * u.GHz})]:
         r = dr.SpanReader(shape=shape, dtype=dtype, signal_type=sigtype, sample_rate=2 * u.MHz, start_time=dr.EPOCH, **kw)
         for j in range(nreads):
-            off = rnd.randint(0, shape[0] // 2)
-            n = rnd.randint(2, shape[0] // 2)
+            off, n = _span(rnd, shape[0], j)
             chunks = rnd.choice([None, tuple(composition(k, rnd, 3) for k in (n,) + shape[1:]),
-                                 (composition(n, rnd, 4),) + (-1,) * (len(shape) - 1), (max(1, n // 3),) + (-1,) * (len(shape) - 1)])
+                                 (composition(n, rnd, 4),) + (-1,) * (len(shape) - 1)]
+                                + ([(max(1, n // 3),) + (-1,) * (len(shape) - 1)] if n else []))
             kwr = {} if chunks is None else {"chunks": chunks}
             c0 = ds.sentinel_count()
             try:
@@ -658,7 +692,10 @@ def run_readers(rnd, out, repo, nreads=6):
             out.note("driver_op:reader-span")
             got = zd.compute(scheduler=rnd.choice(["synchronous", "threads"]))
             for c, m, amb in dr.compare_signals(got, zn, False, "SpanReader.read(%d, %d, use_dask, chunks=%r)" % (off, n, chunks)):
-                out.viol.append(("%s:reader" % c, m))
+                if amb:
+                    out.ambiguous += 1
+                else:
+                    out.viol.append(("%s:reader" % c, m))
     # 2. the repository's sample files through baseband
     data = os.path.join(repo, "tests", "data")
     opens = {"n": 0}
@@ -681,9 +718,10 @@ def run_readers(rnd, out, repo, nreads=6):
                 except Exception as e:  # noqa
                     out.note("reader_open_failed:" + name)
         for name, r in readers:
-            for j in range(3):
+            for j in range(5):
                 n = rnd.randint(1, min(16, len(r))) if j == 0 else rnd.randint(min(8, len(r)), min(96, len(r)))
-                off = rnd.randint(0, len(r) - n)
+                n = {3: 0, 4: 1}.get(j, n)                      # and the boundary reads: nothing, one sample
+                off = rnd.choice([0, len(r)]) if (j == 3 and rnd.random() < 0.5) else rnd.randint(0, len(r) - n)
                 chunks = [None, (-1,) + (1,) * (r.ndim - 1), (composition(n, rnd, 4),) + (-1,) * (r.ndim - 1)][(j + len(name)) % 3] \
                     if j < 2 else (composition(n, rnd, 4),) + (-1,) * (r.ndim - 1)
                 kwr = {} if chunks is None else {"chunks": chunks}
@@ -695,7 +733,10 @@ def run_readers(rnd, out, repo, nreads=6):
                 out.note("driver_op:reader-" + name)
                 got = zd.compute(scheduler="threads" if j else "synchronous")
                 for c, m, amb in dr.compare_signals(got, zn, False, "%s.read(%d, %d, use_dask, chunks=%r)" % (name, off, n, chunks)):
-                    out.viol.append(("%s:reader" % c, m))
+                    if amb:
+                        out.ambiguous += 1
+                    else:
+                        out.viol.append(("%s:reader" % c, m))
         for name, r in readers:
             concurrent_reads(r, name, rnd, out, reps=10 if nreads > 4 else 6, nread=8)
         concurrent_reads(CountingReader((4000, 3), np.float64, sample_rate=1 * u.MHz), "CountingReader", rnd, out, reps=2)
@@ -719,6 +760,9 @@ def run_readers(rnd, out, repo, nreads=6):
             cat = pb.concatenate([a_, b_])
             ref = pb.concatenate([r.read(0, 8), r.read(8, 8)])
             for c, m, amb in dr.compare_signals(cat.compute(), ref, False, "concatenate of two dask reads of " + name):
-                out.viol.append(("%s:reader" % c, m))
+                if amb:
+                    out.ambiguous += 1
+                else:
+                    out.viol.append(("%s:reader" % c, m))
     finally:
         pb.readers.BasebandReader._get_fh = orig
